@@ -39,12 +39,35 @@ type c18Case struct {
 
 var c18Leads = [][]byte{nil, {0xFF, 0xFE}, {0xFE, 0xFF}, {0xFF, 0xFE, 0x00, 0x00}, {0x00, 0x00, 0xFE, 0xFF}, {0x2B, 0x2F, 0x76, 0x38}, {0xF7, 0x64, 0x4C}}
 
-func c18Inject(t *rapid.T, v, label string) string {
+// c18Inject overwrites up to three characters of v with characters of 0x80..0xFF. utf8Like: whole groups of characters
+// whose single-byte encoding happens to be a well-formed UTF-8 sequence ("Ã©" = C3 A9, "â‚¬" = E2 82 AC in windows-1252):
+// the declared encoding is authoritative, such input is NOT to be taken for UTF-8.
+func c18Inject(t *rapid.T, v, label string, utf8Like bool) string {
 	rs := []rune(v)
 	if len(rs) == 0 {
 		return v
 	}
 	k := rapid.IntRange(0, 3).Draw(t, label+"k")
+	if utf8Like {
+		for i := 0; i < k; i++ {
+			seq := rapid.SampledFrom([][]rune{{0xC3, 0xA9}, {0xC2, 0xA0}, {0xC3, 0xBC}, {0xE2, 0x82, 0xAC}, {0xC5, 0x93}}).Draw(t, label+"seq")
+			if len(rs) < len(seq) {
+				continue
+			}
+			pos := rapid.IntRange(0, len(rs)-len(seq)).Draw(t, label+"seqpos")
+			// keep earlier groups intact: only write onto ASCII
+			free := true
+			for j := range seq {
+				if rs[pos+j] >= 0x80 {
+					free = false
+				}
+			}
+			if free {
+				copy(rs[pos:], seq)
+			}
+		}
+		return string(rs)
+	}
 	for i := 0; i < k; i++ {
 		pos := rapid.IntRange(0, len(rs)-1).Draw(t, label+"pos")
 		var r rune
@@ -73,17 +96,18 @@ func genC18(t *rapid.T) c18Case {
 		// of the relation alike
 		c.Shape.XMLDecl = rapid.SampledFrom([]string{"ISO-8859-1", "windows-1252", "latin1", "UTF-8", "utf8", "us-ascii"}).Draw(t, "xmlDeclLabel")
 	}
+	utf8Like := rapid.IntRange(0, 5).Draw(t, "utf8Like") == 0
 	c.Recs = gen.DrawRecs(t, c.Shape, "r", 1, 5, gen.ValueOpts{ASCIIOnly: true, MaxLen: 8})
 	for i := range c.Recs {
 		for j := range c.Recs[i].Vals {
 			if j == c.Shape.IntCol || (j == 0 && c.Shape.Filter) {
 				continue
 			}
-			c.Recs[i].Vals[j] = c18Inject(t, c.Recs[i].Vals[j], fmt.Sprintf("i%d_%d", i, j))
+			c.Recs[i].Vals[j] = c18Inject(t, c.Recs[i].Vals[j], fmt.Sprintf("i%d_%d", i, j), utf8Like)
 		}
 		for k := range c.Recs[i].Subs {
 			for l := range c.Recs[i].Subs[k] {
-				c.Recs[i].Subs[k][l] = c18Inject(t, c.Recs[i].Subs[k][l], fmt.Sprintf("s%d_%d_%d", i, k, l))
+				c.Recs[i].Subs[k][l] = c18Inject(t, c.Recs[i].Subs[k][l], fmt.Sprintf("s%d_%d_%d", i, k, l), utf8Like)
 			}
 		}
 	}
@@ -259,15 +283,9 @@ func checkC18(c c18Case) obs.Result {
 		return obs.Result{Excluded: "no terminal result"}
 	}
 	d := run.Diff(ref, got, key)
-	if d != "" && c.Encoding == "windows-1252" && hasUndef {
-		// the five unassigned bytes: accept the C1-control mapping as well
-		conv2 := c18Decode(single, c.Encoding, true)
-		ref2, err := run.Transcript(schUTF, bytes.NewReader(conv2), run.Opts{InputLen: len(conv2)})
-		if err == nil && run.Diff(ref2, got, key) == "" {
-			d = ""
-			classes = append(classes, "undefined-as-c1")
-		}
-	}
+	// (the five bytes windows-1252 leaves unassigned - 81 8D 8F 90 9D - convert to U+FFFD: that is what the standard code
+	// page of the Go text packages, which the library decodes with, yields. An earlier version of this check also accepted
+	// the C1-control mapping of other tables; it was dropped because it let a decoder with another table pass.)
 	if d != "" {
 		return obs.Violationf("(bytes, encoding=%s) differs from (code-page-converted bytes, utf-8) (A converted, B declared encoding):\n%s\nsingle-byte input %q\nconverted %q", c.Encoding, d, single, conv)
 	}
